@@ -694,8 +694,18 @@ class DateTime(datetime.datetime, Date):
         Remove timedelta duration from the instance.
         """
         if isinstance(delta, pendulum.Duration):
+            # Same units as _add_timedelta_ and Date._subtract_timedelta:
+            # days and weeks move on the wall clock, and the years/months
+            # of an Interval are not counted a second time through _total.
             return self.subtract(
-                years=delta.years, months=delta.months, seconds=delta._total
+                years=delta.years,
+                months=delta.months,
+                weeks=delta.weeks,
+                days=delta.remaining_days,
+                hours=delta.hours,
+                minutes=delta.minutes,
+                seconds=delta.remaining_seconds,
+                microseconds=delta.microseconds,
             )
 
         return self.subtract(seconds=delta.total_seconds())
